@@ -439,28 +439,13 @@ fn expected_tail(mode: RecoveryAccessMode, clean: bool, last: Option<Lsn>) -> Re
     }
 }
 
-/// Workload words: every word of length 1..=depth over `alphabet`.
-pub fn words_over(alphabet: &[TxKind], depth: usize) -> Vec<Vec<TxKind>> {
-    let mut out = Vec::new();
-    for len in 1..=depth {
-        mc::enumerate::sequences(alphabet.len(), len, |s| {
-            out.push(s.iter().map(|i| alphabet[*i]).collect());
-        });
-    }
-    out
-}
+pub use walkit::store::words_over;
 
 /// quick: every word of ≤2 transactions over the 4 kinds plus every word of 3 transactions over
 /// {Submit, Tick}; thorough: every word of ≤4 transactions over the 4 kinds.
 pub fn words(quick: bool) -> Vec<Vec<TxKind>> {
     if quick {
-        let mut w = words_over(&KINDS, 2);
-        for x in words_over(&[TxKind::Submit, TxKind::Tick], 3) {
-            if x.len() == 3 {
-                w.push(x);
-            }
-        }
-        w
+        walkit::store::words_quick()
     } else {
         words_over(&KINDS, 4)
     }
